@@ -36,7 +36,8 @@ type WorkerOut struct {
 	SimTimeS      float64        `json:"sim_time_s"`
 	WallS         float64        `json:"wall_s"`
 	Stats         map[string]int `json:"stats"`
-	FPs           []string       `json:"fps"` // schedule fingerprints of non-trivial runs
+	FPs           []string       `json:"fps"`   // schedule fingerprints of non-trivial runs
+	Hists         []string       `json:"hists"` // operation-history fingerprints (schedule-independent)
 	Hashes        []string       `json:"hashes,omitempty"`
 	StepCaps      int            `json:"step_caps"`
 	Leftover      int            `json:"leftover_runs"`
@@ -133,6 +134,11 @@ func TestWorker(t *testing.T) {
 				if !seenFP[fp] {
 					seenFP[fp] = true
 					out.FPs = append(out.FPs, fp)
+				}
+				hh := fmt.Sprintf("h%016x", r.eng.HistoryHash())
+				if !seenFP[hh] {
+					seenFP[hh] = true
+					out.Hists = append(out.Hists, hh)
 				}
 			}
 			if len(out.Samples) < 2 && r.Viol == nil && r.eng.NonTrivial() {
